@@ -58,6 +58,14 @@ def stimuli_of(labels):
             out.append(('remove', int(args[0])))
         elif name == 'Reply':
             out.append(('reply', int(args[0])))
+        elif name == 'SearchRm':
+            out.append(('searchrm',))
+        elif name == 'SearchHeld':
+            out.append(('sheld',))
+        elif name == 'SentRelease':
+            out.append(('srelease', int(args[0])))
+        elif name == 'CmdAgain':
+            out.append(('recmd', int(args[0])))
         elif name == 'ReplyHeld':
             out.append(('rheld', int(args[0])))
         elif name == 'ReplyRelease':
@@ -135,6 +143,10 @@ class Run:
         self.sent_msgs: list = []
         self._keep = []
         self.held: list[dict] = []      # replies in flight on a connection whose close is held
+        self.sent_remove = False        # the next SearchRequestSentEvent's listener removes the request
+        self.sent_hold = False          # the next SearchRequestSentEvent meets a listener that suspends
+        self.sheld: list[dict] = []     # searches whose sent event is being delivered to such a listener
+        self.cmds: dict[int, object] = {}   # entity -> the command object that created it
 
     # -- recording ---------------------------------------------------------
     def now_ms(self) -> int:
@@ -216,6 +228,31 @@ class Run:
     # -- listeners -----------------------------------------------------------
     def _on_sent(self, event):
         self.scan(sent=event.query)
+        if self.sent_remove and asyncio.current_task() is self.driver_task:
+            # an application listener that drops the request it is told about
+            self.sent_remove = False
+            e = self.ent_of(event.query)
+            self.believed_live.discard(e)
+            exc_name = 'none'
+            try:
+                self.client.searches.remove_request(event.query if self.rng.random() < 0.5 else event.query.ticket)
+            except Exception as exc:
+                exc_name = type(exc).__name__
+            self.log('remove', e=e, exc=exc_name)
+
+    async def _on_sent_slow(self, event):
+        """A coroutine listener: normally returns at once, suspends when the driver asked for it."""
+        cur = asyncio.current_task()
+        if cur is self.driver_task:
+            return                              # never the driver itself
+        rec = next((r for r in self.sheld if r.get('task') is cur and 'gate' not in r), None)
+        if rec is None and self.sent_hold:      # `holdnext`: whoever emits next
+            self.sent_hold = False
+            rec = next((r for r in self.sheld if 'task' not in r and 'gate' not in r), None)
+        if rec is None:
+            return
+        rec['gate'] = self.loop.create_future()
+        await rec['gate']
 
     def _on_result(self, event):
         e = self.ent_of(event.query)
@@ -236,6 +273,7 @@ class Run:
 
     async def _main(self, loop):
         self.loop = loop
+        self.driver_task = asyncio.current_task()
         rig = self.cfg['rig']
         try:
             if rig == 'L':
@@ -261,6 +299,9 @@ class Run:
                 nticks += 1
             for h in range(1, len(self.held) + 1):
                 await self._op_rrelease(h)
+            for k in range(1, len(self.sheld) + 1):
+                await self._op_srelease(k)
+            self.sent_hold = False
             await self.quiesce()
             gc.collect(0)
             self.poll_errors()
@@ -285,8 +326,9 @@ class Run:
     def _listen(self, bus):
         from aioslsk.events import SearchRequestSentEvent, SearchResultEvent, SearchRequestRemovedEvent
         # the bus holds listeners weakly: bound methods of self stay alive with self
-        self._keep = [self._on_sent, self._on_result, self._on_removed]
+        self._keep = [self._on_sent, self._on_result, self._on_removed, self._on_sent_slow]
         bus.register(SearchRequestSentEvent, self._keep[0])
+        bus.register(SearchRequestSentEvent, self._keep[3])
         bus.register(SearchResultEvent, self._keep[1])
         bus.register(SearchRequestRemovedEvent, self._keep[2])
 
@@ -351,6 +393,10 @@ class Run:
             self.scan()
             return
         if kind == 'advance':
+            # which instant a timeout counts from is not pinned down while the sent event is still
+            # being delivered: the clock does not move during such a delivery
+            for k in range(1, len(self.sheld) + 1):
+                await self._op_srelease(k)
             await self.quiesce()
             self.scan()
             self.poll_errors()
@@ -392,6 +438,49 @@ class Run:
         except Exception as exc:   # observation
             self.log('opexc', what=f'{api}:{type(exc).__name__}')
 
+    async def _op_searchrm(self):
+        self.sent_remove = True
+        try:
+            await self._op_search()
+        finally:
+            self.sent_remove = False
+
+    async def _op_sheld(self):
+        """search() in a task of its own; its SearchRequestSentEvent meets a suspending listener."""
+        rec = dict()
+        self.sheld.append(rec)
+
+        async def go():
+            await self._op_search()
+        rec['task'] = asyncio.create_task(go())
+
+    async def _op_holdnext(self):
+        """The next SearchRequestSentEvent, whoever emits it (a wishlist round), meets the
+        suspending listener."""
+        self.sheld.append(dict())
+        self.sent_hold = True
+
+    async def _op_srelease(self, k):
+        if k > len(self.sheld):
+            return
+        gate = self.sheld[k - 1].get('gate')
+        if gate is not None and not gate.done():
+            gate.set_result(None)
+
+    async def _op_recmd(self, e):
+        cmd = self.cmds.get(e)
+        if cmd is None:
+            return
+        self.cur_op = 'cmd'
+        known = len(self.objs)
+        try:
+            await self.client.execute(cmd)
+        except Exception as exc:
+            self.log('opexc', what=f'{type(cmd).__name__}:{type(exc).__name__}')
+        self.scan()
+        for new in range(known + 1, len(self.objs) + 1):
+            self.cmds[new] = cmd
+
     async def _op_cmd(self):
         from aioslsk import commands as C
         which = self.rng.choice(['global', 'user', 'room'])
@@ -401,10 +490,14 @@ class Run:
             cmd = C.UserSearchCommand('user0', self._query())
         else:
             cmd = C.RoomSearchCommand('room0', self._query())
+        known = len(self.objs)
         try:
             await self.client.execute(cmd)
         except Exception as exc:
             self.log('opexc', what=f'{type(cmd).__name__}:{type(exc).__name__}')
+        self.scan()
+        for new in range(known + 1, len(self.objs) + 1):
+            self.cmds[new] = cmd
 
     async def _op_remove(self, e):
         if e > len(self.objs) or e not in self.believed_live:
@@ -571,6 +664,8 @@ REQ_ACTIONS = ['Search', 'CmdSearch', 'WlMsg', 'Remove', 'Reply', 'Yield', 'Adva
                'RunDue', 'RunCallback', 'RunUnset', 'RunWishlist', 'RunWlDue']
 HELD_ACTIONS = ['Search', 'Remove', 'ReplyHeld', 'ReplyRelease', 'RunReplyArrive', 'RunReplyResume', 'Yield',
                 'Advance', 'RunFirst', 'RunCancelled', 'RunDue', 'RunCallback', 'RunUnset']
+SENT_ACTIONS = ['CmdSearch', 'Remove', 'SearchRm', 'SearchHeld', 'SentRelease', 'CmdAgain', 'RunSearchArrive',
+                'RunSearchResume', 'Yield', 'Advance', 'RunFirst', 'RunCancelled', 'RunDue', 'RunCallback', 'RunUnset']
 TIMER_ACTIONS = ['TNew', 'TStart', 'TCancel', 'TResched', 'Yield', 'Advance', 'RunFirst', 'RunCancelled', 'RunDue',
                  'RunCallback', 'RunUnset']
 
@@ -675,15 +770,37 @@ def random_request_scenario(rng, rig):
     wl = 0
     ticks = 0
     held = 0
+    sheld = 0
     for _ in range(rng.randrange(5, 16)):
         r = rng.random()
-        if r < 0.22:
+        if r < 0.16:
             st.append(('search',))
             created += 1
-        elif r < 0.34:
+        elif r < 0.19:
+            st.append(('searchrm',))
+            created += 1
+        elif r < 0.22:
+            if sheld < 2 and rng.random() < 0.6:
+                st.append(('sheld',))
+                sheld += 1
+                created += 1
+            elif sheld:
+                st.append(('srelease', rng.randrange(1, sheld + 1)))
+        elif r < 0.31:
             st.append(('cmd',))
             created += 1
+        elif r < 0.34 and created:
+            st.append(('recmd', rng.randrange(1, created + 1)))
+            created += 1
         elif r < 0.40 and items and wl < (2 if rig == 'L' else 1):
+            if rig == 'L' and wl == 0 and rng.random() < 0.4:
+                # a wishlist round whose sent event is still being delivered when the next
+                # announcement cancels the round
+                st += [('holdnext',), ('wlmsg', rng.choice([2, 3, 4])), ('yield',), ('wlmsg', rng.choice([2, 3, 4]))]
+                sheld += 1
+                wl += 2
+                created += 2 * items
+                continue
             st.append(('wlmsg', rng.choice([2, 3, 4])))
             wl += 1
             created += items
@@ -918,11 +1035,13 @@ def run(chk: Check, args):
     # ---- design models -------------------------------------------------------------------
     from concurrent.futures import ThreadPoolExecutor
     deviations = (('MC_req_code_remove.cfg', 'NoLoopError'), ('MC_req_code_gen.cfg', 'DistinctTickets'),
-                  ('MC_timer_code.cfg', 'SupersededNeverFires'), ('MC_req_code_reply.cfg', 'ResultIffLive'))
+                  ('MC_timer_code.cfg', 'SupersededNeverFires'), ('MC_req_code_reply.cfg', 'ResultIffLive'),
+                  ('MC_req_code_start.cfg', 'NoLoopError'), ('MC_req_code_recmd.cfg', 'DistinctTickets'))
     with ThreadPoolExecutor(max_workers=3) as pool:
         f_req = pool.submit(dump_cover, 'MC_req_tiny.cfg')
         f_tm = pool.submit(dump_cover, 'MC_timer_tiny.cfg')
         f_held = pool.submit(dump_cover, 'MC_req_held_tiny.cfg')
+        f_sent = pool.submit(dump_cover, 'MC_req_sent_tiny.cfg')
         f_dev = [pool.submit(tlc.run_tlc, SPEC, cfg, timeout=900) for cfg, _ in deviations]
         scheds_req = cover_schedules(chk, 'MC_req_tiny.cfg', 'SearchRequests requests tiny (exhaustive)',
                                      REQ_ACTIONS, f_req.result())
@@ -931,6 +1050,9 @@ def run(chk: Check, args):
         # replies whose connection is slow to close, with removals / expiries inside that window
         scheds_held = cover_schedules(chk, 'MC_req_held_tiny.cfg', 'SearchRequests held replies tiny (exhaustive)',
                                       HELD_ACTIONS, f_held.result())
+        # listeners of SearchRequestSentEvent that remove the request / suspend; commands executed again
+        scheds_sent = cover_schedules(chk, 'MC_req_sent_tiny.cfg', 'SearchRequests sent-event listeners tiny (exhaustive)',
+                                      SENT_ACTIONS, f_sent.result())
         # the code's position of each switch must break the property it is about
         for (cfg, prop), fut in zip(deviations, f_dev):
             r = fut.result()
@@ -966,9 +1088,10 @@ def run(chk: Check, args):
             chk.rng.shuffle(keys)
             keys = sorted(keys[:cap])
         return keys
-    req_keys = pick(scheds_req, None if thorough else 1800)
-    tm_keys = pick(scheds_tm, None if thorough else 1500)
-    held_keys = pick(scheds_held, None if thorough else 1000)
+    req_keys = pick(scheds_req, None if thorough else 1500)
+    tm_keys = pick(scheds_tm, None if thorough else 1300)
+    held_keys = pick(scheds_held, None if thorough else 800)
+    sent_keys = pick(scheds_sent, None if thorough else 750)
     full_cover = thorough
 
     # ---- replay on the real code ----------------------------------------------------------
@@ -991,6 +1114,14 @@ def run(chk: Check, args):
     for n, key in enumerate(keys[:(600 if thorough else 150)]):
         rt, wt, st = key
         plan.append((dict(rig='F', rt=rt, wt=wt, items=0, conc=conc + 5 * n), st, scheds_held[key]))
+    for n, key in enumerate(sent_keys):
+        rt, wt, st = key
+        plan.append((dict(rig='L', rt=rt, wt=wt, items=0, conc=conc + n), st, scheds_sent[key]))
+    keys = list(sent_keys)
+    chk.rng.shuffle(keys)
+    for n, key in enumerate(keys[:(500 if thorough else 120)]):
+        rt, wt, st = key
+        plan.append((dict(rig='F', rt=rt, wt=wt, items=0, conc=conc + 3 * n), st, scheds_sent[key]))
     for n, key in enumerate(tm_keys):
         plan.append((dict(rig='T', tick=(1.0, 0.5, 0.25)[n % 3], conc=conc + n), key[2], scheds_tm[key]))
     for n in range(2500 if thorough else 300):
